@@ -1,6 +1,6 @@
 """C01 Legal move generation is exact."""
 import json
-import vlib, games
+import vlib, games, nodes
 
 
 def main():
@@ -10,7 +10,7 @@ def main():
     results, paths = games.walk_traces(chk, events=700 if q else 20000, files=8 if q else 32)
     n_events, distinct = games.collect_walk(chk, results, paths)
     # --- direction B: enumerated families replayed into the generator
-    fams = ["ep", "castle", "pin", "dblchk", "promo", "promopin", "kingwalk", "evade"]
+    fams = ["ep", "castle", "pin", "dblchk", "promo", "promopin", "kingwalk", "evade", "givechk"]
     if q:
         # quick: the line-through-the-king cases of ep / pin completely (all shards, thinning keeps them), the small
         # targeted families completely, the large cross products thinned
@@ -20,7 +20,9 @@ def main():
                                             shards=[chk.seed % 16, (chk.seed + 5) % 16])
         # the promo family is split by pawn file: 8 shards
         o4, j4 = games.run_movegen_families(chk, ["promo"], nshards=8, density=16, shards=[chk.seed % 8, (chk.seed + 5) % 8])
-        outs, jobs = outs + o2 + o3 + o4, jobs + j2 + j3 + j4
+        # every way a move gives check: the verdict after PLAYING each move (and after taking it back)
+        o5, j5 = games.run_movegen_families(chk, ["givechk"], nshards=8, density=16)
+        outs, jobs = outs + o2 + o3 + o4 + o5, jobs + j2 + j3 + j4 + j5
     else:
         outs, jobs = games.run_movegen_families(chk, fams, nshards=16, density=1)
     n_gen = n_dist = n_nontriv = 0
@@ -32,11 +34,14 @@ def main():
         for s in o["samples"][:1]:
             chk.sample(s, cap=8)
         for m in o["mismatches"]:
-            w = "%s|%s|missing=%s|extra=%s" % (m.get("what"), m.get("fen"), m.get("missing"), m.get("extra"))
+            w = "%s|%s|missing=%s|extra=%s" % (m.get("what"), m.get("fen"), m.get("missing", m.get("moves")), m.get("extra"))
             chk.violation(w, "movelist-generated", m, replay={"kind": "gen-position", "file": p, "fen": m.get("fen")})
     for f in fams:
         if not any(k.startswith(f) for k in fam_counts):
             raise vlib.ToolError("family %s produced nothing (vacuous)" % f)
+    # node level (hook H6, Trace_Nodes.tla): every step of every node of recorded searches replayed on a stack of
+    # rule-book positions; this check reports the clauses filed under its own property
+    nstat = nodes.standard(chk, ("C01",), scale=0.5)
     chk.cov.update({
         "states": sum(r.distinct for r in results),
         "transitions": sum(r.states for r in results),
